@@ -106,6 +106,13 @@ func convert(ctx string, to string, drop int, failMsg string) string {
 		m["apiVersion"] = to
 		out = append(out, m)
 	}
+	if drop < 0 {
+		// surplus: the first object is written more than once
+		for i := 0; i < -drop && len(out) > 0; i++ {
+			out = append(out, out[0])
+		}
+		drop = 0
+	}
 	if drop > len(out) {
 		drop = len(out)
 	}
